@@ -35,6 +35,7 @@ def gen_case(rng: random.Random) -> dict[str, Any]:
         ending["r"] = r
         if r == "int":
             ending["n"] = rng.choice([0, 0, 1, 5, 127, 128, 300, -1, -128])
+            ending["isub"] = rng.choice([None, None, "enum", "cls"])
         if r == "other":
             ending["ov"] = rng.randrange(9)     # index into impl.runner.NON_INTS
     if kind in ("cliRaise", "crashAfterStartup"):
@@ -94,6 +95,7 @@ class C15(Prop):
         endings: list[dict[str, Any]] = [{"k": "cliReturn", "r": "none"}]
         endings += [{"k": "cliReturn", "r": "other", "ov": ov} for ov in range(9)]
         endings += [{"k": "cliReturn", "r": "int", "n": n} for n in (0, 1, 2, 126, 127, 128, 255, 256, 1000, -1, -127, -128)]
+        endings += [{"k": "cliReturn", "r": "int", "n": n, "isub": kind} for n in (0, 3, 127, 128) for kind in ("enum", "cls")]
         endings += [{"k": "cliRaise", "e": 1}, {"k": "startupFail"}, {"k": "startupTimeout"},
                     {"k": "signalDuringStartup", "sig": "SIGINT"}, {"k": "signalDuringStartup", "sig": "SIGTERM"},
                     {"k": "signalAfterStartup", "sig": "SIGINT", "d": 10}, {"k": "signalAfterStartup", "sig": "SIGTERM", "d": 10},
